@@ -242,8 +242,12 @@ class Interp:
                 return True
             zs = [p for p in parts if not isinstance(p, bool)]
             return z3.Or(*zs) if zs else False
+        if isinstance(v, _smap().SSet):
+            return v.card > 0  # a set is true iff it has a member (pop() raises KeyError iff card == 0)
         if isinstance(v, _smap().SMap):
             raise Unsupported("truth of symbolic map")
+        if type(v).__name__ in ("SList", "View"):
+            raise Unsupported(f"truth of {type(v).__name__}")
         if v is None:
             return False
         if isinstance(v, Sym):
